@@ -147,7 +147,7 @@ GHOST_AXIOMS = {}      # ghost name -> [(label, closed spec text, module)] assum
 def axiom(ghostname, label, text, modname='saml2_tophat.sigver'):
     GHOST_AXIOMS.setdefault(ghostname, []).append((label, text, modname))
 
-_SORTS = {'Val': Val, 'Int': IntS, 'Bool': BoolS, 'Str': StrS, 'Seq': SeqVal}
+_SORTS = {'Val': Val, 'Int': IntS, 'Bool': BoolS, 'Str': StrS, 'Seq': SeqVal, 'KeySet': KeySet, 'KeyMap': KeyMap}
 
 
 def ghost(name, argsorts, ressort):
